@@ -85,6 +85,14 @@ keys_of = z3.Function("keys_of", smt.TagSet, smt.TagSet)  # the key tags of a co
 opcols = z3.Function("opcols", smt.Ref, smt.TagSet, smt.TagSet)  # column set after a unary operation on a target with columns T
 fvtp = z3.Function("fvtp", SeqRef.sort, smt.IntS, smt.TagSet)  # free columns of the first i sort terms  # columns a unary operation needs on its target
 
+# ---- iteration engine: row iterables and converted callables ----------------------------
+content = z3.Function("content", smt.Ref, RS)  # rows a RowIterable yields (every time it is iterated)
+s_dedup_key = z3.Function("s_dedup_key", smt.TagSet, RS, RS)  # dict keyed on these columns: first position, last row
+s_mapc = z3.Function("s_mapc", smt.Tag, smt.Ref, RS, RS)  # add column computed by a callable
+s_filterc = z3.Function("s_filterc", smt.Ref, RS, RS)  # keep rows a callable accepts
+denotes_x = z3.Function("denotes_x", smt.Ref, smt.Ref, smt.BoolS)  # callable computes exactly this expression on every row
+denotes_p = z3.Function("denotes_p", smt.Ref, smt.Ref, smt.BoolS)
+
 sem = z3.Function("sem", smt.Ref, RS, RS)  # unary operation applied to a row sequence
 bsem = z3.Function("bsem", smt.Ref, RS, RS, RS)  # binary operation
 
